@@ -80,7 +80,104 @@ def metadata_cases(rng, tier):
 
 
 def cases(rng, tier):
-    return metadata_cases(rng, tier) + registration_cases(rng, tier)
+    return metadata_cases(rng, tier) + registration_cases(rng, tier) + oidc_claims_cases(rng, tier)
+
+
+# ---- OpenID Connect Dynamic Registration claims ------------------------------------------------------
+OIDC_MAP = {"token_endpoint_auth_signing_alg_values_supported": "token_endpoint_auth_signing_alg", "subject_types_supported": "subject_type",
+            "id_token_signing_alg_values_supported": "id_token_signed_response_alg", "id_token_encryption_alg_values_supported": "id_token_encrypted_response_alg",
+            "id_token_encryption_enc_values_supported": "id_token_encrypted_response_enc", "userinfo_signing_alg_values_supported": "userinfo_signed_response_alg",
+            "userinfo_encryption_alg_values_supported": "userinfo_encrypted_response_alg", "userinfo_encryption_enc_values_supported": "userinfo_encrypted_response_enc",
+            "request_object_signing_alg_values_supported": "request_object_signing_alg", "request_object_encryption_alg_values_supported": "request_object_encryption_alg",
+            "request_object_encryption_enc_values_supported": "request_object_encryption_enc"}
+OIDC_METAS = [
+    {},
+    {"acr_values_supported": ["urn:acr:1", "urn:acr:2"], "subject_types_supported": ["public"], "token_endpoint_auth_signing_alg_values_supported": ["RS256", "ES256"],
+     "id_token_signing_alg_values_supported": ["RS256", "ES256"], "id_token_encryption_alg_values_supported": ["RSA-OAEP"], "id_token_encryption_enc_values_supported": ["A128CBC-HS256", "A256GCM"],
+     "userinfo_signing_alg_values_supported": ["RS256", "none"], "userinfo_encryption_alg_values_supported": ["RSA-OAEP"], "userinfo_encryption_enc_values_supported": ["A128CBC-HS256"],
+     "request_object_signing_alg_values_supported": ["RS256", "none"], "request_object_encryption_alg_values_supported": ["RSA-OAEP"],
+     "request_object_encryption_enc_values_supported": ["A256GCM"]},
+    {"id_token_signing_alg_values_supported": ["ES256"], "subject_types_supported": ["pairwise", "public"], "acr_values_supported": []},
+]
+ALG_POOL = ["RS256", "ES256", "none", "HS256", "", None, 5, ["RS256"], True, {"a": 1}, "RSA-OAEP", "A128CBC-HS256", "A256GCM"]
+def oidc_pool():
+  return {
+    "token_endpoint_auth_signing_alg": ALG_POOL, "application_type": ["web", "native", "Web", "", None, 5, ["web"], "service"],
+    "sector_identifier_uri": URI_POOL[:10] + [None, 5, ["https://c.example/x"], ["https://c.example/x", "/rel"], [5], [["x"]], {"a": 1}, ["", "https://c.example/x#f"]],
+    "subject_type": ["public", "pairwise", "other", "", None, 5, ["public"]],
+    "id_token_signed_response_alg": ALG_POOL, "id_token_encrypted_response_alg": ALG_POOL, "id_token_encrypted_response_enc": ALG_POOL,
+    "userinfo_signed_response_alg": ALG_POOL[:8], "userinfo_encrypted_response_alg": ALG_POOL[:8] + ["RSA-OAEP"], "userinfo_encrypted_response_enc": ALG_POOL[:6] + ["A128CBC-HS256"],
+    "default_max_age": [0, 3600, -1, "3600", None, True, [1], {"a": 1}],
+    "require_auth_time": [True, False, None, 0, 1, "true", []],
+    "default_acr_values": [["urn:acr:1"], ["urn:acr:1", "urn:acr:9"], [], None, "urn:acr:1", 5, [["x"]], [5], {"urn:acr:1": 1}],
+    "initiate_login_uri": URI_POOL[:8] + [None, 5],
+    "request_object_signing_alg": ALG_POOL[:8], "request_object_encryption_alg": ALG_POOL[:6] + ["RSA-OAEP"], "request_object_encryption_enc": ALG_POOL[:6] + ["A256GCM", "A128CBC-HS256"],
+    "request_uris": [["https://c.example/r#hash"], ["/rel"], "https://c.example/r", [], None, [""], [5], 5],
+  }
+
+
+def oidc_claims_cases(rng, tier):
+    out = []
+    for mi, meta in enumerate(OIDC_METAS):
+        out.append({"op": "oidc_claims", "meta": meta, "payload": {}})
+        OIDC_POOL = oidc_pool()
+        for k, vals in OIDC_POOL.items():
+            for v in vals:
+                out.append({"op": "oidc_claims", "meta": meta, "payload": {k: copy.deepcopy(v)}})
+        keys = list(OIDC_POOL)
+        for _ in range(150 if tier == "quick" else 4000):
+            p = {}
+            for k in rng.sample(keys, rng.choice([2, 2, 3, 4])):
+                p[k] = copy.deepcopy(rng.choice(OIDC_POOL[k]))
+            out.append({"op": "oidc_claims", "meta": meta, "payload": p})
+    return out
+
+
+def run_oidc_claims(c):
+    from authlib.oidc.registration import ClientMetadataClaims as OC
+    from authlib.jose.errors import JoseError
+    meta = copy.deepcopy(c["meta"])
+    try:
+        claims = OC(copy.deepcopy(c["payload"]), {}, OC.get_claims_options(meta), meta)
+        claims.validate()
+        stored = claims.get_registered_claims()
+        return {"r": "ok", "stored": {k: _abstract(v) for k, v in stored.items()}, "_raw": stored}
+    except JoseError as e:
+        return {"r": "invalid", "claim": getattr(e, "claim_name", None) or e.description}
+    except Exception as e:
+        return {"r": "crash", "exc": type(e).__name__}
+
+
+def oidc_model_line(c):
+    return {"op": "oidc_claims", "meta": {"acr_values_supported": c["meta"].get("acr_values_supported") or [],
+                                          "allowed": {OIDC_MAP[k]: v for k, v in c["meta"].items() if k in OIDC_MAP}}, "payload": c["payload"]}
+
+
+def oidc_oracle(c, out, bad):
+    if out["r"] != "ok":
+        return
+    st = out["_raw"]
+    for k in ("sector_identifier_uri", "initiate_login_uri", "request_uris"):
+        v = st.get(k)
+        for u in (v if isinstance(v, list) else [v]):
+            if u:
+                from urllib.parse import urlsplit
+                ok = isinstance(u, str) and bool(urlsplit(u).scheme and urlsplit(u).hostname)
+                if not ok:
+                    bad(f"stored {k} entry {u!r} is not an absolute URI", kind="stored-bad-uri", member=k)
+    for mk, ck in OIDC_MAP.items():
+        allowed = c["meta"].get(mk)
+        v = st.get(ck)
+        if allowed and v and v not in allowed:
+            bad(f"stored {ck} = {v!r} is not among the server's {mk} {allowed}", kind="stored-unsupported", member=ck)
+    for k in ("token_endpoint_auth_signing_alg", "id_token_signed_response_alg"):
+        if st.get(k) == "none":
+            bad(f"stored {k} = none", kind="stored-unsupported", member=k)
+    if st.get("application_type") not in ("web", "native"):
+        bad(f"stored application_type {st.get('application_type')!r}", kind="stored-unsupported", member="application_type")
+    acr = c["meta"].get("acr_values_supported")
+    if acr and st.get("default_acr_values") and not set(st["default_acr_values"]) <= set(acr):
+        bad(f"stored default_acr_values {st['default_acr_values']!r} not supported", kind="stored-unsupported", member="default_acr_values")
 
 
 # ---------------------------------------------------------------------------------------------
@@ -100,18 +197,24 @@ def run_metadata(c):
 def impl(c):
     if c["op"] in ("as", "op"):
         return run_metadata(c)
+    if c["op"] == "oidc_claims":
+        return run_oidc_claims(c)
     return run_registration(c)
 
 
 def model_line(c):
     if c["op"] in ("as", "op"):
         return {"op": c["op"], "doc": c["doc"]}
+    if c["op"] == "oidc_claims":
+        return oidc_model_line(c)
     return registration_model_line(c)
 
 
 def project(c, out):
     if c["op"] in ("as", "op"):
         return out
+    if c["op"] == "oidc_claims":
+        return {k: v for k, v in out.items() if not k.startswith("_")}
     return registration_project(c, out)
 
 
@@ -225,10 +328,15 @@ def oracle(c, out):
         if not accepted and why is None:
             bad(f"valid metadata rejected: {out}", kind="valid-rejected", how=out.get("msg") or out.get("exc"))
         return v
+    if c["op"] == "oidc_claims":
+        oidc_oracle(c, out, bad)
+        return v
     return registration_oracle(c, out, bad) or v
 
 
 def classify(c, out):
+    if c["op"] == "oidc_claims":
+        return "oidc_claims/" + out["r"]
     if c["op"] in ("as", "op"):
         return f"{c['op']}/{c['mut']}/{out['r']}"
     return f"{c['op']}/{out.get('status', out.get('raised', '?'))}"
